@@ -18,7 +18,8 @@ class _Captured(BaseException):
 
 
 def _is_handover(v):
-    return (isinstance(v, tuple) and len(v) == 2 and isinstance(v[0], tuple) and len(v[0]) == 3
+    # (the pair may be followed by further items handed to the next stage - the extrapolator object, say)
+    return (isinstance(v, tuple) and len(v) >= 2 and isinstance(v[0], tuple) and len(v[0]) == 3
             and isinstance(v[0][0], Arr) and isinstance(v[0][1], Arr) and isinstance(v[0][2], tuple)
             and all(isinstance(k, int) for k in v[0][2]))
 
@@ -32,7 +33,7 @@ def estimates(I, obj, x, args=(), kwds=None):
     try:
         obj(x, *args, **(kwds or {}))
     except _Captured as c:
-        (der, h, shape), fx = c.value
+        (der, h, shape), fx = c.value[0], c.value[1]
         return (der, h, shape), fx
     finally:
         I.on_return = prev
